@@ -112,6 +112,28 @@ func runMerge(c *Ctx) {
 			default:
 				prior = vg.Value(tc.T, d)
 			}
+			// failed decodes are part of the history too: damaged copies of valid data, cut at
+			// every kind of position, leave pooled scratch state and half-written targets behind
+			if len(data) > 1 && c.rng.Chance(50) {
+				for k := 0; k < 1+c.rng.Intn(3); k++ {
+					bad := append([]byte{}, data...)
+					switch c.rng.Intn(3) {
+					case 0:
+						bad = bad[:1+c.rng.Intn(len(bad)-1)]
+					case 1:
+						bad[c.rng.Intn(len(bad))] ^= byte(1 << uint(c.rng.Intn(8)))
+					default:
+						bad = append(bad[:len(bad)-1], 0xff, 0xff, 0x7f)
+					}
+					scratch := reflect.New(tc.T)
+					if c.rng.Bool() {
+						deepCopyInto(scratch.Elem(), vg.Value(tc.T, d))
+					}
+					c.crumb(fmt.Sprintf("merge-history damaged decode cfg=%s type=%s data=%x", tc.Cfg, tc.T, bad))
+					safely(func() error { return tc.P.Unmarshal(bad, scratch.Interface()) })
+					c.count("history_damaged_decodes")
+				}
+			}
 			c.addDec(tc, data, prior, "merge", shapeClass(tc.T, 2)+"/"+fmt.Sprint(prior.IsZero()), !prior.IsZero() && len(data) > 0)
 		}
 	}
